@@ -283,6 +283,8 @@ func (f *file) childAtPath(path []int32) Entity {
 		child = f.enums[path[1]]
 	case servicePath:
 		child = f.srvs[path[1]]
+	case extensionPath:
+		child = f.defExts[path[1]]
 	default:
 		return nil
 	}
